@@ -1065,6 +1065,25 @@ def emit(out_file=OUT_FILE, src_root=None):
     return dict(translated=ok, failed=failed)
 
 
+def ensure(names):
+    """regenerate GenCode.v; fail closed when one of the functions the property's proofs are about could not be translated"""
+    r = emit()
+    bad = [(n, e) for n, e in r["failed"] if n in names]
+    if bad:
+        raise RuntimeError("function bodies outside the translated subset (the tie to the source is broken): "
+                           + "; ".join(f"{n}: {e}" for n, e in bad))
+    return r
+
+
+C11_FUNCS = ["binary_search_interval", "check_for_value", "argsort_k", "find_pbest_id", "sattolo_shuffle",
+             "random_weighted_sample", "random_sample", "flip_coin", "randint", "proportional_selection",
+             "rank_selection", "tournament_selection"]
+C06_FUNCS = C11_FUNCS + ["empty_crossover", "binomialGA", "one_point_crossover", "two_point_crossover", "uniform_crossover",
+                         "uniform_proportional_crossover", "uniform_rank_crossover", "flip_mutation"]
+C07_FUNCS = C11_FUNCS + ["binomial", "best_1", "rand_1", "rand_to_best1", "current_to_best_1", "best_2", "rand_2",
+                         "bounds_control", "bounds_control_mean"]
+
+
 if __name__ == "__main__":
     r = emit()
     print("translated:", len(r["translated"]))
